@@ -499,6 +499,19 @@ def run(ctx):
             ctx.ob("G4", b.defp, ("base64-psk" if is_psk else "evp-bytes-to-key") + "-selected-by-is_aead_2022", loc(t["sp"]), ok,
                    ("PSK parser" if is_psk else "EVP_BytesToKey") + (" is selected by is_aead_2022()" if ok else
                    " is called without testing is_aead_2022(): a legacy cipher's ordinary password is parsed as a base64 PSK on this path (or vice versa)"))
+    # G7 the identity-key chain keeps the order of the configured password ("iPSK0:iPSK1:..:uPSK"): the PSK parser walks the segments front
+    # to back; a reversed walk (rsplit / rev) yields the same keys for one or two segments and a wrong header chain for three or more
+    psk_parsers = [b for b in prog.prod_bodies() if b.root == b.defp and "Vec<[u8;" in b.local_ty(0) and b.argc == 1 and b.local_ty(1) == "&str"]
+    ctx.floor("G7", "PSK parsers returning the identity-key chain", 1, len(psk_parsers))
+    for b in psk_parsers:
+        rev = []
+        for fb in prog.family(b.defp):
+            for (blk, c, t) in prog.flat(fb.defp).calls():
+                if c.method in ("rsplit", "rsplitn", "rsplit_terminator", "rev", "rsplit_once") and ("str" in c.target or "Iterator" in (c.trait or "") or "iter" in c.target):
+                    rev.append(c.name)
+        ctx.ob("G7", b.defp, "identity-keys-in-configured-order", loc(b.sp), not rev,
+               "the password's key segments are walked front to back" if not rev else
+               f"the password's key segments are walked backwards ({sorted(set(rev))}): with three or more keys the identity headers are emitted in the wrong chain order", ordinal=False)
     dec_sites = prog.callers_of(lambda c: c.name == "Encoding::decode" and "base64" in c.target)
     ctx.floor("G5", "base64 key decodes", 2, len(dec_sites))
     for (b, blk, c, t) in dec_sites:
